@@ -3,7 +3,7 @@
 //! needs no `MemResizable` / `MemBuilderSizeable` / `MemRawParts` bounds.
 
 use crate::elems::Elem;
-use crate::simmem::SimBuilder;
+use crate::simmem::{SimBuilder, SimFixed};
 #[cfg(feature = "alloc")]
 use any_vec::mem::Heap;
 use any_vec::mem::{MemBuilder, Stack, StackN};
@@ -111,5 +111,13 @@ impl<const N: usize, const SIZE: usize> Backend for StackN<N, SIZE> {
     }
     fn builder() -> Self {
         StackN::<N, SIZE>
+    }
+}
+impl<const N: usize> Backend for SimFixed<N> {
+    fn info() -> BackendInfo {
+        BackendInfo { kind: BeKind::SimFixed, bytes: 0, n: N }
+    }
+    fn builder() -> Self {
+        SimFixed::<N>
     }
 }
